@@ -1,6 +1,7 @@
 package checks
 
 import (
+	"bytes"
 	"fmt"
 	"hash/fnv"
 	mrand "math/rand/v2"
@@ -208,6 +209,31 @@ func c03Variants(r *mrand.Rand, resp []byte, plain []byte, sw uint16, earlier []
 		add("extend-append", append(append(append([]byte{}, body...), extra...), swb...))
 		add("extend-prepend", append(append(append([]byte{}, extra...), body...), swb...))
 	}
+	// a second data object carrying a valid cryptogram of an earlier response (tag 85 or 87)
+	for _, e := range earlier {
+		edos, err := chipsim.ParseDOs(e[:len(e)-2])
+		if err != nil {
+			continue
+		}
+		for _, d := range edos {
+			if d.Tag != 0x87 {
+				continue
+			}
+			for _, tag := range []byte{0x85, 0x87} {
+				extra := chipsim.TLV(tag, d.Val)
+				add("extra-data-object-earlier-cryptogram", append(append(append([]byte{}, extra...), body...), swb...))
+				add("extra-data-object-earlier-cryptogram", append(append(append([]byte{}, body...), extra...), swb...))
+			}
+		}
+	}
+	// the genuine data object under the other tag
+	if m > 0 && dos[0].Tag == 0x87 {
+		v := chipsim.TLV(0x85, dos[0].Val)
+		for _, d := range dos[1:] {
+			v = append(v, d.Raw...)
+		}
+		add("data-object-retagged", append(v, swb...))
+	}
 	// equivalent re-encoding: non-minimal length of the first object
 	if m > 0 && len(dos[0].Val) < 0x80 {
 		v := append([]byte{dos[0].Tag, 0x81, byte(len(dos[0].Val))}, dos[0].Val...)
@@ -288,6 +314,17 @@ func c03Unit(c *fw.Ctx, k *fw.K, i int) {
 		if j < 2 {
 			k.Sample("unit-genuine", map[string]any{"suite": suite.String(), "cmd": cmd.String(), "response": hexCap(resp, 120), "plain_len": len(plain), "sw": fmt.Sprintf("%04x", sw)})
 		}
+		// the genuine checksum object (8E 08 <mac>)
+		gd, _ := chipsim.ParseDOs(resp[:len(resp)-2])
+		var genuineMAC []byte
+		for _, d := range gd {
+			if d.Tag == 0x8E {
+				genuineMAC = d.Raw
+			}
+		}
+		if len(genuineMAC) != 10 {
+			fw.Bug("genuine response without an 8-byte MAC object")
+		}
 		// variants
 		for _, v := range c03Variants(r, resp, plain, sw, earlier, foreign, c.Thorough()) {
 			if bytesEq(v.b, resp) {
@@ -303,6 +340,12 @@ func c03Unit(c *fw.Ctx, k *fw.K, i int) {
 			rr, err := t.Decode(append([]byte{}, v.b...))
 			if err != nil {
 				k.Count("unit_rejected_" + v.kind)
+				continue
+			}
+			if !bytes.Contains(v.b, genuineMAC) {
+				// whatever it decodes to: a response without the genuine checksum object was
+				// not authenticated under the session MAC key and counter
+				k.Violation("sm:decode:accepts:unauthenticated:"+v.kind, fmt.Sprintf("%s variant accepted although it does not carry the genuine MAC", v.kind), det(v.kind, v.b))
 				continue
 			}
 			if v.kind == "outer-sw" {
@@ -384,7 +427,7 @@ func (ch *c03Chip) process(raw []byte) (*c03Processed, []byte) {
 	return &c03Processed{d, sw, resp}, resp
 }
 
-var c03Actions = []string{"pass", "naked-noforward", "naked-forward", "deliver-held", "replay", "cross", "bitflip", "pass", "pass"}
+var c03Actions = []string{"pass", "naked-noforward", "naked-forward", "short-forward", "short-noforward", "empty-forward", "deliver-held", "deliver-held", "replay", "cross", "bitflip", "pass", "pass"}
 
 func c03History(c *fw.Ctx, k *fw.K, i int) {
 	r := k.RNG
@@ -406,6 +449,9 @@ func c03History(c *fw.Ctx, k *fw.K, i int) {
 		{"pass", "pass", "replay", "pass"},
 		{"pass", "cross", "pass"},
 		{"naked-forward", "pass"},
+		{"short-forward", "deliver-held"},
+		{"pass", "empty-forward", "deliver-held", "pass"},
+		{"short-forward", "short-noforward", "deliver-held"},
 	}
 	if i%4 < 2 && (i/4)%3 == 0 {
 		script = directed[(i/12)%len(directed)]
@@ -452,6 +498,19 @@ func c03History(c *fw.Ctx, k *fw.K, i int) {
 				heldAt = append(heldAt, tr.n-1)
 			}
 			return []byte{0x69, 0x82}
+		case "short-forward", "empty-forward":
+			// the command reaches the chip, the reply is lost and the link delivers a runt frame
+			p, resp := chip.process(raw)
+			if p != nil {
+				held = append(held, resp)
+				heldAt = append(heldAt, tr.n-1)
+			}
+			if action == "empty-forward" {
+				return []byte{}
+			}
+			return []byte{0x90}
+		case "short-noforward":
+			return []byte{0x6A}
 		case "deliver-held":
 			if len(held) == 0 {
 				return []byte{0x6A, 0x82}
